@@ -119,18 +119,28 @@ func main() {
 		if len(mnc) == 2 {
 			snn = "5G:mnc0" + mnc + ".mcc" + mcc + ".3gppnetwork.org"
 		}
-		var a16 [16]byte
-		copy(a16[:], autn)
-		var res []byte
-		p := ev.Catch(func() { res = ue.DeriveRESstarAndSetKey(ue.AuthenticationSubs, a16, rnd, snn, mnc, mcc) })
 		opcI := []int{}
 		if opch != "" {
 			b, _ := hex.DecodeString(opch)
 			opcI = ev.Ints(b)
 		}
-		w.Emit(ev.M{"ev": "Derive", "id": i, "k": ev.Ints(k), "op": ev.Ints(op), "opc": opcI, "rand": ev.Ints(rnd), "autn": ev.Ints(autn),
-			"mcc": ev.Ints([]byte(mcc)), "mnc": ev.Ints([]byte(mnc)), "supi": ev.Ints([]byte(supi)), "enc": c.enc, "int": c.integ,
-			"resStar": ev.Ints(res), "kamf": ev.Ints(ue.Kamf), "kenc": ev.Ints(ue.KnasEnc[:]), "kint": ev.Ints(ue.KnasInt[:]),
-			"panic": p != "", "cls": fmt.Sprintf("mnc%d-supi%d-opOnly%v", c.mncLen, c.supiLen, c.opOnly)})
+		// re-authentication: every third subscriber runs further AKA rounds on the same UE context with a fresh challenge
+		rounds := 1
+		if i%3 == 0 {
+			rounds = 3
+		}
+		for round := 0; round < rounds; round++ {
+			if round > 0 {
+				rnd, autn = ev.Bytes(r, 16), ev.Bytes(r, 16)
+			}
+			var a16 [16]byte
+			copy(a16[:], autn)
+			var res []byte
+			p := ev.Catch(func() { res = ue.DeriveRESstarAndSetKey(ue.AuthenticationSubs, a16, rnd, snn, mnc, mcc) })
+			w.Emit(ev.M{"ev": "Derive", "id": fmt.Sprintf("%d.%d", i, round), "round": round, "k": ev.Ints(k), "op": ev.Ints(op), "opc": opcI, "rand": ev.Ints(rnd), "autn": ev.Ints(autn),
+				"mcc": ev.Ints([]byte(mcc)), "mnc": ev.Ints([]byte(mnc)), "supi": ev.Ints([]byte(supi)), "enc": c.enc, "int": c.integ,
+				"resStar": ev.Ints(res), "kamf": ev.Ints(ue.Kamf), "kenc": ev.Ints(ue.KnasEnc[:]), "kint": ev.Ints(ue.KnasInt[:]),
+				"panic": p != "", "cls": fmt.Sprintf("mnc%d-supi%d-opOnly%v-round%d", c.mncLen, c.supiLen, c.opOnly, round)})
+		}
 	}
 }
